@@ -53,6 +53,11 @@ def prepare(run, debug=False):
     return gv, gm, gvd
 
 
+MORE_PROPS = {"theories/props/C15.v": ["theories/props/C15_state.v"],
+              "theories/props/C01.v": ["theories/props/C01_depth.v"],
+              "theories/props/C16.v": ["theories/props/C16_errors.v"]}
+
+
 def prove(run, props_file, extra_targets=(), gen_targets=(), allow_axioms=()):
     """make the property's Coq targets; returns the list of broken obligations"""
     broken = []
@@ -63,6 +68,8 @@ def prove(run, props_file, extra_targets=(), gen_targets=(), allow_axioms=()):
         pin = props_file.replace("props/", "pins/").replace(".v", "_pin.v")
         if os.path.exists(os.path.join(vlib.COQ, pin)):
             targets.append(pin[:-2] + ".vo")
+    more = [m for m in MORE_PROPS.get(props_file, []) if os.path.exists(os.path.join(vlib.COQ, m))]
+    targets += [m[:-2] + ".vo" for m in more]
     targets += list(extra_targets) + list(gen_targets)
     ok, log = vlib.coq_make(targets)
     failed = vlib.coq_failed_files(log) if not ok else []
@@ -81,6 +88,11 @@ def prove(run, props_file, extra_targets=(), gen_targets=(), allow_axioms=()):
         module = props_file[len("theories/"):-2].replace("/", ".")
         try:
             res = vlib.print_assumptions(run.prop, module, thms)
+            for m in more:
+                if not any(b[0].startswith("coq:" + m[:-2]) for b in broken):
+                    t2 = vlib.theorems_in(m)
+                    res.update(vlib.print_assumptions(run.prop + "_more", m[len("theories/"):-2].replace("/", "."), t2))
+                    thms = thms + t2
         except TieBroken as e:
             res = {}
             broken.append(("assumptions", e.log))
@@ -514,7 +526,7 @@ check_c05 = parser_check(
     "multi-byte identifiers, strings and comments, plus 1-3 token mutations of them and token soup; every ACCEPTED input is judged: "
     "each position must hold the lexeme its node names (table in tools/pfam.py), pairs open before close, inner children strictly "
     "between, identifier/literal leaves in source order; crate and model compared on the tree with all positions; non-trivial = accepted inputs",
-    fam_valid_mut_soup(250, 2, 300), nontrivial=accepted)
+    lambda run: fam_valid_mut_soup(250, 2, 300)(run) + pfam.position_directed_cases(), nontrivial=accepted)
 
 check_c06 = parser_check(
     "C06", "theories/props/C06.v", "positions", oracle_accounted,
@@ -724,9 +736,53 @@ def check_c03(run, replay):
         "comments, docs and empty statements removed must equal the derivation (tags, identifier and literal texts, operators, keywords, "
         "flags); crate and model compared on the same projection; non-trivial = all (distinct renderings)",
         fam_valid_styles(250, ("canonical", "random", "comments", "dense")), tokens=False,
-        extra=lambda run, fam, gv, gm: witness_findings(
-            run, gv, lambda k, w, l: l.startswith("OK ") and "TypePointer" not in l))
+        extra=c03_extra)
     return base(run, replay)
+
+
+def c03_extra(run, fam, gv, gm):
+    witness_findings(run, gv, lambda k, w, l: l.startswith("OK ") and "TypePointer" not in l)
+    # derivations are compositional: an expression has the same derivation wherever it stands, and a statement
+    # list is the list of its statements' derivations
+    ex = [pfam.Case(e, "F-expr-alone") for e in FRAG_EXPRS]
+    impl_e, mod_e, _ = fam.exec(ex, mode="expr")
+    fam.judge(ex, impl_e, mod_e, [None] * len(ex), "shape", None, "expressions alone")
+    shape_e = {e: (pfam.proj_shape(l) if l.startswith("OK ") else None) for e, l in zip(FRAG_EXPRS, impl_e)}
+    emb = []
+    for e in FRAG_EXPRS:
+        if shape_e[e] is None:
+            continue
+        for pre, post in (("var _ = ", ""), ("type _ [", "]int"), ("var _ [", "]int"), ("var _ = f(", ", z)"), ("func _() { return ", " }"),
+                          ("var _ = []T{", "}"), ("func _() { x[", "]++ }"), ("func _() { c <- ", " }")):
+            emb.append(pfam.Case("package p\n" + pre + e + post + "\n", "F-expr-embedded", note=e))
+    impl_m, mod_m, _ = fam.exec(emb)
+
+    def oracle(c, line, tl):
+        if not line.startswith("OK "):
+            return None      # some positions do not admit every expression (e.g. a function literal as array length is fine, a type is not)
+        if shape_e[c.note] not in pfam.proj_shape(line):
+            return "the expression %r has another derivation here than alone" % c.note
+        return None
+    fam.judge(emb, impl_m, mod_m, [None] * len(emb), "shape", oracle, "an expression has the same derivation in every position")
+    st = [pfam.Case("package p\nfunc _() { " + a + " }\n", "F-stmt-alone") for a in FRAG_STMTS]
+    impl_s, mod_s, _ = fam.exec(st)
+    fam.judge(st, impl_s, mod_s, [None] * len(st), "shape", None, "statements alone")
+
+    def stmts_of(l):
+        t = pfam.tree_of(l)
+        return [pfam.sexpr.dump(x) for x in t.kids[2].kids[-1].kids[3].kids if x.tag != "Empty"]
+    single = {a: (stmts_of(l) if l.startswith("OK ") else None) for a, l in zip(FRAG_STMTS, impl_s)}
+    pairs = [(a, b) for i, a in enumerate(FRAG_STMTS) for j, b in enumerate(FRAG_STMTS) if (i + j) % 3 == seed_of(run) % 3 or run.tier != "quick"]
+    pc = [pfam.Case("package p\nfunc _() { " + a + "; " + b + " }\n", "F-stmt-pair", note=(a, b)) for a, b in pairs]
+    impl_p, mod_p, _ = fam.exec(pc)
+
+    def pair_oracle(c, line, tl):
+        a, b = c.note
+        if single[a] is None or single[b] is None or not line.startswith("OK "):
+            return None
+        return None if stmts_of(line) == single[a] + single[b] else \
+            "the statement list [A; B] is not A's derivation followed by B's (A = %r, B = %r)" % (a, b)
+    fam.judge(pc, impl_p, mod_p, [None] * len(pc), "shape", pair_oracle, "a statement list is the list of its statements' derivations")
 
 
 def check_c13(run, replay):
@@ -792,6 +848,21 @@ def check_c13(run, replay):
 
 # ---------------------------------------------------------------- C14
 
+def directed_programs():
+    """every fragment of the C15 lists in every embedding position, as whole files"""
+    out = []
+    for e in FRAG_EXPRS:
+        for pre, post in (("var _ = ", ""), ("type _ [", "]int"), ("var _ [", "]int"), ("var _ = f(", ")"), ("func _() { return ", " }"),
+                          ("func _() { if ", " {} }"), ("func _() { for ", " {} }"), ("func _() { switch ", " {} }"), ("var _ = []T{", "}")):
+            out.append(pfam.Case("package p\n" + pre + e + post + "\n", "F-directed"))
+    for st in FRAG_STMTS:
+        out.append(pfam.Case("package p\nfunc _() { " + st + " }\n", "F-directed"))
+        out.append(pfam.Case("package p\nfunc _() { for range ch {}; " + st + "; " + st + " }\n", "F-directed"))
+    for d in FRAG_DECLS:
+        out.append(pfam.Case("package p\n" + d + "\n", "F-directed"))
+    return out
+
+
 def check_c14(run, replay):
     import goprint
     run.trusted = vlib.BASE_TRUST + ["tools/goprint.py: the straightforward printer (adds no parentheses, prints every field of the tree)"]
@@ -830,6 +901,9 @@ def check_c14(run, replay):
     fam = Families(run, gv, gm)
     progs, hit, labels = pfam.gen_programs(seed_of(run), budget(run, 300, 2000))
     cases = pfam.valid_cases(progs, ("random",)) + pfam.mutant_cases(progs, 6) + pfam.soup_cases(seed_of(run), budget(run, 2000, 20000))
+    cases += directed_programs()
+    small, _, _ = pfam.gen_programs(seed_of(run) + 7, budget(run, 40, 300), budgets=(8, 12, 15))
+    cases += pfam.systematic_mutants(small)
     impl, mod, toks = fam.exec(cases)
     fam.judge(cases, impl, mod, toks, "shape", None, "first parse (crate == model)")
     pcases = roundtrip(fam, cases, impl)
@@ -863,6 +937,8 @@ FRAG_EXPRS = [
     "func(a int) (b int) { return a }", "<-c", "&T{}", "*p.q", "(a + b) * c", "a.b.c(d)(e)", "f[int, string](x)", "struct{ a int }{1}",
     "x == y && !z || w", "[...]T{}", "chan<- int(c)", "(<-chan int)(c)", "interface{ m() }(nil)", "a[f[int]]", "-x + ^y",
     "func() { if x := T{}; x {} }", "func() { for i := range T{} {} }", "'a'", "\"s\" + `r`", "1.5e3i", "a &^ b << c",
+    "Point{1, 2}", "pkg.T{a: b}", "G[int]{}", "M[K, V]{k: v}", "f(a, b)", "g(a, b, c)", "len(x)", "pkg.f(a, b) + 1", "a[i][j]",
+    "x.(pkg.T)", "(((((((((((((((((((((((((((((((((((((((((((((((((((((((((((((a)))))))))))))))))))))))))))))))))))))))))))))))))))))))))))))",
 ]
 FRAG_STMTS = [
     "x := 1", "a, b = b, a", "x++", "c <- v", "L: for { break L }", "if x := f(); x > 0 { y() } else if z { w() } else { v() }",
@@ -870,6 +946,9 @@ FRAG_STMTS = [
     "switch { case a > b: fallthrough; default: }", "select { case v := <-c: _ = v; case c <- 1: default: }", "go f(x)", "defer func() {}()",
     "return a, b", "var x, y int = 1, 2", "const c = iota", "type T[P any] struct{ p P }", "type A [N]int", "type I interface{ A | B; m() }",
     "{ x(); { y() } }", "goto L", "f(T{1})", "if (T{}) == x {}", "x.y.z = w[i]", "var f = func() { type T[P interface{ m() }] int }",
+    "p := Point{x: 1}", "return T{}", "v = pkg.T{a: b}", "for range ch {}", "for range T{} {}", "for {}", "for x {}", "switch x {}",
+    "switch x := y; x {}", "if x {}", "select {}", "var m M[K, V]", "var v = G[A, B]{}", "type L [f(a, b)]int", "type Q[P any, R any] int",
+    "x.(M[K, V])", "func() { for range T{} {} }()", "L2: p := Q{}",
 ]
 FRAG_DECLS = [
     "var x int", "var (a = 1; b, c string)", "const (A = iota; B; C)", "type T struct { a int; b, c string `t`; *E; pkg.F }",
@@ -880,7 +959,7 @@ FRAG_DECLS = [
 ]
 PREFIXES = [
     "", "var a int\n", "type T[P any] struct{ p P }\n", "type A [N]int\ntype I interface{ A | B }\n",
-    "func f() { if x := T{}; x {} else {}\n for i := range T{} {}\n switch y := z.(type) {} }\n", "// doc\nfunc g() {} // trailing\n",
+    "func f() { if x := (T{}); x {} else {}\n for i := range (T{}) {}\n switch y := z.(type) {} }\n", "// doc\nfunc g() {} // trailing\n",
     "var x = ((((((((((((((((((((a))))))))))))))))))))\n", "type S struct {\n a int // c\n b int\n}\n/* pending */ /* comments */\n",
     "func k() { L: L2: L3: for { select { case <-c: default: } } }\n", "var m = map[K]V{a: {b: {c: d}}}\nconst (X = iota; Y)\n",
     "type G[P interface{ m(x int) }] int\ntype H[P *struct{ a int }] int\n", "func é日本() { 日 := `raw\nstring`; _ = 日 }\n",
@@ -889,6 +968,13 @@ PREFIXES = [
 
 def shift_positions(text, k):
     return re.sub(r"@(\d+)", lambda m: "@%d" % (int(m.group(1)) + k), text)
+
+
+def state_oracle(c, line, tl):
+    """after a successful entry-point call the parser is left at nesting level 0 and depth 0 (hook verif_state)"""
+    if line.startswith("OK ") and " ; state=" in line and not line.endswith(" ; state=0,0"):
+        return "the entry point succeeded but left the parser in state (expr_level, depth) = %s" % line.rsplit("state=", 1)[1]
+    return None
 
 
 def check_c15(run, replay):
@@ -908,8 +994,10 @@ def check_c15(run, replay):
     def alone_and_embedded(frags, mode, wrap_pre, wrap_post, pick):
         """fragment alone through entry point `mode`; embedded as  package p; <prefix> wrap_pre frag wrap_post"""
         alone = [pfam.Case(f, "F-frag-" + mode) for f in frags]
-        impl_a, mod_a, _ = fam.exec(alone, mode=mode)
-        fam.judge(alone, impl_a, mod_a, [None] * len(alone), "full", None, "fragment alone: crate == model")
+        impl_as, mod_as, _ = fam.exec(alone, mode=mode + "+s")
+        fam.judge(alone, impl_as, mod_as, [None] * len(alone), "full", state_oracle,
+                  "fragment alone: crate == model, and the entry point leaves nesting level and depth as it found them")
+        impl_a = [l.rsplit(" ; state=", 1)[0] for l in impl_as]
         emb = []
         for fi, f in enumerate(frags):
             for pre in prefixes:
@@ -956,9 +1044,67 @@ def check_c15(run, replay):
         except Exception:
             return None
 
+    def type_len(t):
+        d = last_decl(t)
+        try:
+            ts = d.kids[0]
+            return ts.kids[2].kids[0] if ts.kids[2].tag == "TypeArray" else None
+        except Exception:
+            return None
+
+    def var_len(t):
+        d = last_decl(t)
+        try:
+            return d.kids[0].kids[1].kids[0]
+        except Exception:
+            return None
+
+    def call_arg(t):
+        try:
+            return var_value(t).kids[1].kids[0]
+        except Exception:
+            return None
+
+    def ret_val(t):
+        try:
+            return body_stmt(t).kids[0]
+        except Exception:
+            return None
     alone_and_embedded(FRAG_EXPRS, "expr", "var _ = ", "\n", var_value)
+    # the same expressions in other positions: array length of a type declaration (read speculatively by
+    # parse_type_spec), of a variable's type, call argument, return value
+    alone_and_embedded(FRAG_EXPRS, "expr", "type _ [", "]int\n", type_len)
+    alone_and_embedded(FRAG_EXPRS, "expr", "var _ [", "]int\n", var_len)
+    alone_and_embedded(FRAG_EXPRS, "expr", "var _ = f(", ")\n", call_arg)
+    alone_and_embedded(FRAG_EXPRS, "expr", "func _() { return ", " }\n", ret_val)
     alone_and_embedded(FRAG_STMTS, "stmt", "func _() { ", " }\n", body_stmt)
+    # statements do not influence each other: the block [A; B] holds A's tree followed by B's tree
+    pairs = [(a, b) for a in FRAG_STMTS for b in FRAG_STMTS]
+    if run.tier == "quick":
+        pairs = [pq for i, pq in enumerate(pairs) if i % 2 == seed_of(run) % 2]
+    single = {}
+    sc = [pfam.Case("package p\nfunc _() { " + a + " }\n", "F-stmt-single") for a in FRAG_STMTS]
+    impl_s, mod_s, _ = fam.exec(sc)
+    for a, l in zip(FRAG_STMTS, impl_s):
+        single[a] = [pfam.sexpr.dump(x) for x in last_decl(pfam.tree_of(l)).kids[3].kids if x.tag != "Empty"] if l.startswith("OK ") else None
+    pc = [pfam.Case("package p\nfunc _() { " + a + "; " + b + " }\n", "F-stmt-pair", note=(a, b)) for a, b in pairs]
+    impl_p, mod_p, _ = fam.exec(pc)
+
+    def pair_oracle(c, line, tl):
+        a, b = c.note
+        if single[a] is None or single[b] is None:
+            return None
+        if not line.startswith("OK "):
+            return "two statements that parse alone are rejected together: %s" % line[:80]
+        have = [pfam.sexpr.dump(x) for x in last_decl(pfam.tree_of(line)).kids[3].kids if x.tag != "Empty"]
+        if have != single[a] + single[b]:
+            return "the block [A; B] is not A's tree followed by B's tree (A = %r, B = %r)" % (a, b)
+        return None
+    fam.judge(pc, impl_p, mod_p, [None] * len(pc), "shape", pair_oracle, "a statement parses the same after any other statement")
     # declarations: alone in a file vs after a prefix
+    whole = pfam.valid_cases(progs, ("random",)) + pfam.mutant_cases(progs, 2)
+    impl_w, mod_w, _ = fam.exec(whole, mode="parse+s")
+    fam.judge(whole, impl_w, mod_w, [None] * len(whole), "full", state_oracle, "state after parse_file")
     decl_alone = [pfam.Case("package p\n" + d + "\n", "F-decl-alone") for d in FRAG_DECLS]
     impl_a, mod_a, _ = fam.exec(decl_alone)
     fam.judge(decl_alone, impl_a, mod_a, [None] * len(decl_alone), "full", None, "declaration alone")
@@ -990,7 +1136,10 @@ def check_c15(run, replay):
         seqs.append((k, ss))
     for k in (2, 3):
         hs = [pfam.Case("; ".join(ss) + ";", "F-history-%d" % k, note=ss) for kk, ss in seqs if kk == k]
-        impl_h, mod_h, _ = fam.exec(hs, mode="stmts%d" % k)
+        impl_hs, mod_hs, _ = fam.exec(hs, mode="stmts%d+s" % k)
+        fam.judge(hs, impl_hs, mod_hs, [None] * len(hs), "full", state_oracle, "state after repeated entry-point calls")
+        impl_h = [l.rsplit(" ; state=", 1)[0] for l in impl_hs]
+        mod_h = [l.rsplit(" ; state=", 1)[0] for l in mod_hs]
         blocks = [pfam.Case("package p\nfunc _() { " + c.src + " }\n", "F-history-block") for c in hs]
         impl_b, mod_b, _ = fam.exec(blocks)
 
@@ -1003,7 +1152,8 @@ def check_c15(run, replay):
             blk = last_decl(pfam.tree_of(b)).kids[3]
             want = [pfam.sexpr.dump(s) for s in blk.kids if s.tag != "Empty"]
             have = [pfam.sexpr.dump(s) for s in pfam.sexpr.parse(line[3:]).kids if s.tag != "Empty"]
-            return None if want == have else "repeated parse_stmt calls give other statements than the same text in a block"
+            # an empty statement (a bare ';') uses up one call: the calls yield a prefix of the block's statements
+            return None if want[:len(have)] == have else "repeated parse_stmt calls give other statements than the same text in a block"
         fam.judge(hs, impl_h, mod_h, [None] * len(hs), "full", hist_oracle, "repeated entry-point calls on one parser")
     run.cov["rule"] = ("%d expression, %d statement and %d declaration fragments (every kind of production, including the ones that make the "
                        "parser backtrack, control clause headers with composite literals, generics) x %d prefixes (hand-written ones that "
@@ -1017,6 +1167,163 @@ def check_c15(run, replay):
     for fs in fam.fam_stats.values():
         pass
     fam.nontrivial = set(range(run.cov["evaluations"]))
+    fam.finish(broken)
+
+
+# ---------------------------------------------------------------- C01
+
+def partial_ops_inventory():
+    """every partial operation (unwrap, expect, unreachable!, unimplemented!, panic!, assert!, indexing) of the
+    crate's non-test sources as a multiset of (file, enclosing fn, kind): moving code is no difference, a new
+    partial operation is (the model has no Panic site for it)"""
+    import collections
+    out = []
+    for f in sorted(os.listdir(os.path.join(vlib.REPO, "src"))):
+        if not f.endswith(".rs"):
+            continue
+        src = open(os.path.join(vlib.REPO, "src", f)).read()
+        cut = src.find("#[cfg(test)]")
+        if cut >= 0:
+            src = src[:cut]
+        src = re.sub(r"//[^\n]*", "", src)
+        fn = None
+        for ln in src.splitlines():
+            m = re.search(r"\bfn\s+(\w+)", ln)
+            if m:
+                fn = m.group(1)
+            for kind, pat in (("unwrap", r"\.unwrap\(\)"), ("expect", r"\.expect\(\""), ("unreachable", r"unreachable!"),
+                              ("unimplemented", r"unimplemented!"), ("panic", r"\bpanic!"), ("assert", r"\bassert(_eq|_ne)?!"),
+                              ("index", r"\w\[[^\]]*\](?!\s*=>)")):
+                for _ in re.finditer(pat, ln):
+                    if kind == "index" and (ln.strip().startswith("#[") or "vec![" in ln or "&[" in ln or ": [" in ln or "-> [" in ln):
+                        continue
+                    out.append("%s:%s:%s" % (f, fn, kind))
+    return dict(collections.Counter(out))
+
+
+def nest_families(ns):
+    F = []
+    for N in ns:
+        fams = {
+            "unary": "package p; var x = " + "-+" * N + "x",
+            "label": "package p; func f() { " + "L: " * N + "x() }",
+            "elseif": "package p; func f() { " + "if x {} else " * N + "{} }",
+            "block": "package p; func f() " + "{" * N + "}" * N,
+            "forfunc": "package p; func f() { " + "for func(){ " * N + " }(){} " * N + "}",
+            "paren": "package p; var x = " + "(" * N + "x" + ")" * N,
+            "slice": "package p; var x " + "[]" * N + "int",
+            "ptr": "package p; var x " + "*" * N + "int",
+            "chan": "package p; var x " + "chan " * N + "int",
+            "functype": "package p; var x " + "func(" * N + ")" * N,
+            "lit": "package p; var x = T" + "{" * N + "}" * N,
+            "index": "package p; var x = a" + "[a" * N + "]" * N,
+            "call": "package p; var x = " + "f(" * N + ")" * N,
+            "ifhdr": "package p; func f() { " + "if func() bool { " * N + "return true " + "}() {}; " * N + " }",
+            "switchlit": "package p; func f() { x() " + "".join("; switch f(T" + "{" * 60 + "func(){ " for _ in range(min(N, 200))) + "y()" + (" }" + "}" * 60 + ") {}") * min(N, 200) + " }",
+            "structnest": "package p; type T " + "struct { a " * N + "int" + " }" * N,
+            "iface": "package p; type T " + "interface { m() " * N + "int" + " }" * N,
+            "mapnest": "package p; var x " + "map[int]" * N + "int",
+            "typedecl": "package p; " + "type T[P*func(){ " * N + "type T[P*func(){}] int" + " }] int" * N,
+            "tparam": "package p; type T[P " + "interface{ m(x " * N + "int" + ") }" * N + "] int",
+            "parentype": "package p; var x " + "(" * N + "int" + ")" * N,
+            "recv": "package p; var x = " + "<-" * N + "c",
+            "addr": "package p; var x = " + "& " * N + "c",
+            "neg": "package p; var x = " + "- " * N + "c",
+            "plus": "package p; var x = " + "+ " * N + "c",
+            "not": "package p; var x = " + "!" * N + "c",
+            "xor": "package p; var x = " + "^" * N + "c",
+            "deref": "package p; var x = " + "*" * N + "c",
+            "tilde": "package p; type T interface{ " + "~" * N + "int }",
+            "stmtaddr": "package p; func f() { " + "& " * N + "x }",
+            "compkeys": "package p; var x = T{" + "a: {" * N + "}" * N + "}",
+            "casenest": "package p; func f() { " + "switch { case x: " * N + "}" * N + " }",
+            "selectnest": "package p; func f() { " + "select { default: " * N + "}" * N + " }",
+            "gofunc": "package p; func f() { " + "go func() { " * N + "}() " * N + " }",
+        }
+        for k, v in fams.items():
+            F.append(pfam.Case(v, "F-nest", note="%s/%d" % (k, N)))
+    return F
+
+
+def chain_families(N):
+    return [pfam.Case("package p; var x = a" + "+a" * N, "F-chain", note="binleft/%d" % N),
+            pfam.Case("package p; var x = a" + ".b" * N, "F-chain", note="sel/%d" % N),
+            pfam.Case("package p; var x = a" + "(1)" * N, "F-chain", note="calls/%d" % N),
+            pfam.Case("package p; var x = a" + "[1]" * N, "F-chain", note="indexes/%d" % N),
+            pfam.Case("package p; func f() { " + "x++; " * N + " }", "F-chain", note="stmts/%d" % N),
+            pfam.Case("package p; var x = []int{" + "1, " * N + "}", "F-chain", note="elems/%d" % N)]
+
+
+def kf4(case, msg, line):
+    """KF-4: the recursive Drop / Debug of a very long left-deep chain overflows the stack"""
+    return case.family == "F-chain" and case.note.split("/")[0] in ("binleft", "sel", "calls", "indexes") and \
+        int(case.note.split("/")[1]) >= 20000 and ("overflow" in line or "DIED" in line)
+
+
+def check_c01(run, replay):
+    run.trusted = vlib.BASE_TRUST + ["real stack consumption, wall-clock time and the recursive Drop/Debug of the returned tree are observed "
+                                     "from outside (child processes, 8 MiB main-thread stack, debug and release builds), not modelled"]
+    gv, gm, gvd = prepare(run, debug=True)
+    if replay:
+        obj = json.load(open(replay))
+        if "input" in obj:
+            for b, name in ((gv, "release"), (gvd, "debug")):
+                print(name, vlib.run_records(b, obj.get("mode", "outcome"), [obj["input"]])[0][:200])
+        return
+    broken = prove(run, "theories/props/C01.v", extra_targets=["theories/proofs/DepthProofs.vo"])
+    inv = partial_ops_inventory()
+    exp = json.load(open(os.path.join(vlib.ROOT, "tools", "partial_ops.json")))
+    run.oblige("inventory of partial operations (unwrap / expect / unreachable! / panic! / assert! / indexing) per function == the one the "
+               "model's Panic sites and the scanner totality proofs were written against (tools/partial_ops.json)", inv == exp)
+    if inv != exp:
+        d = {k: (exp.get(k, 0), inv.get(k, 0)) for k in set(inv) | set(exp) if inv.get(k, 0) != exp.get(k, 0)}
+        broken.append(("partial-operation inventory (expected, found)", json.dumps(d, indent=1)))
+    md = re.search(r"const MAX_DEPTH: i32 = (\d+);", open(os.path.join(vlib.REPO, "src", "parser.rs")).read())
+    mn = re.search(r"const MAX_NESTING: usize = (\d+);", open(os.path.join(vlib.REPO, "src", "parser.rs")).read())
+    ok_caps = bool(md and mn and md.group(1) == "64" and mn.group(1) == "192")
+    run.oblige("nesting caps of the crate (MAX_DEPTH = 64, MAX_NESTING = 192) == the model's", ok_caps)
+    if not ok_caps:
+        broken.append(("caps", "MAX_DEPTH/MAX_NESTING differ from the model's 64/192"))
+    fam = Families(run, gv, gm)
+    progs, hit, labels = pfam.gen_programs(seed_of(run), budget(run, 150, 1000))
+    small, _, _ = pfam.gen_programs(seed_of(run) + 7, budget(run, 40, 300), budgets=(8, 12, 15))
+    general = pfam.valid_cases(progs, ("random",)) + pfam.mutant_cases(progs, 6) + pfam.systematic_mutants(small) + \
+        pfam.soup_cases(seed_of(run), budget(run, 2000, 20000)) + pfam.bytes_cases(seed_of(run), budget(run, 2000, 20000))
+    corpus = json.load(open(os.path.join(vlib.ROOT, "corpus", "unit_snippets.json")))
+    general += [pfam.Case(s_, "corpus") for s_ in corpus]
+    nest_small = nest_families([1, 2, 30, 62, 63, 64, 65, 95, 96, 97, 190, 191, 192, 193, 300])
+    nest_big = nest_families([1000, 20000] if run.tier == "quick" else [1000, 20000, 200000])
+    chains = chain_families(2000) + chain_families(100000)
+
+    def no_crash(c, line, tl):
+        if line.startswith(("PANIC", "DIED")) or "overflow" in line[:60]:
+            return "the call did not return a tree or an error value: %s" % line[:160]
+        return None
+    # model compared where it can run (it predicts which nesting depth turns into the depth error)
+    for mode in ("parse", "expr", "stmt", "stmts3"):
+        cs = general if mode == "parse" else general[:: 3]
+        impl, mod, toks = fam.exec(cs, mode=mode)
+        for c in cs:
+            c.style = mode
+        fam.judge(cs, impl, mod, toks, "outcome", no_crash, "entry point %s returns" % mode)
+    impl, mod, toks = fam.exec(nest_small)
+    fam.judge(nest_small, impl, mod, toks, "errloc", no_crash, "nesting around the caps: crate == model incl. where the depth error is raised")
+    t0 = __import__("time").time()
+    for b, name in ((gv, "release"), (gvd, "debug")):
+        for cs in (nest_small + nest_big + chains, general[:: 2]):
+            lines = vlib.run_records(b, "outcome", [c.src for c in cs], timeout=900)
+            fam.judge(cs, lines, [None] * len(cs), [None] * len(cs), "outcome", no_crash,
+                      "%s build: parse, Debug-print and drop the result in a child process with the default 8 MiB stack" % name)
+    run.extra["nest_wall_s"] = round(__import__("time").time() - t0, 1)
+    run.cov["rule"] = ("generated valid programs, 1-3 token mutants, systematic single-edit mutants, token soup, random UTF-8 strings and the "
+                       "unit-test corpus through parse_source, Parser::expression, Parser::parse_stmt and three successive parse_stmt calls; "
+                       "27 pumping families (one per recursive construct and per cycle of the production call graph, including literal "
+                       "nesting restarted in control clause headers) at depths around both caps (62..66, 95..97, 190..193), 300, 1000, 20000 "
+                       "(200000 thorough) and long left-deep chains (2000, 100000); release and debug builds, each input parsed, Debug-printed "
+                       "and dropped in a child process with the 8 MiB stack and a wall-clock limit; a panic, signal or timeout is a failure; "
+                       "crate and model are compared on the outcome and, near the caps, on the error location; non-trivial = distinct inputs")
+    run.cov["samples"] = [c.note for c in nest_small[:3]] + [general[0].src[:200]]
+    fam.nontrivial = set(hash(c.src) for c in general + nest_small + nest_big + chains)
     fam.finish(broken)
 
 
@@ -1329,7 +1636,7 @@ def kf21_docs(case, msg, line):
     return msg.startswith("KF-21")
 
 
-KNOWN_CLASSIFIERS = {"KF-5": kf5, "KF-21": kf21_docs}
+KNOWN_CLASSIFIERS = {"KF-5": kf5, "KF-21": kf21_docs, "KF-4": kf4}
 
 REGISTRY = {
     "C10": check_c10,
@@ -1348,7 +1655,35 @@ REGISTRY = {
     "C14": check_c14,
     "C12": check_c12,
     "C15": check_c15,
+    "C01": check_c01,
     "C18": check_c18,
     "C19": check_c19,
     "C20": check_c20,
 }
+
+
+
+def precache_assumptions():
+    """setup: compute the Print Assumptions answers of every property file once (they are cached under the hash
+    of the compiled file; loading the parametricity translation makes each of them take minutes)"""
+    import concurrent.futures as cf
+    jobs = []
+    for prop in sorted(REGISTRY):
+        pf = "theories/props/%s.v" % prop
+        if not os.path.exists(os.path.join(vlib.COQ, pf)):
+            continue
+        jobs.append((prop, pf))
+        for m in MORE_PROPS.get(pf, []):
+            if os.path.exists(os.path.join(vlib.COQ, m)):
+                jobs.append((prop + "_more", m))
+
+    def one(job):
+        prop, f = job
+        try:
+            vlib.print_assumptions(prop, f[len("theories/"):-2].replace("/", "."), vlib.theorems_in(f))
+            return prop, "ok"
+        except Exception as e:
+            return prop, "failed: %s" % e
+    with cf.ThreadPoolExecutor(max_workers=8) as ex:
+        for prop, r in ex.map(one, jobs):
+            print("assumptions %s: %s" % (prop, r))
